@@ -128,10 +128,15 @@ pub fn run(case: &Value, ctx: &Ctx) -> Outcome {
                         let fifo = format!("{}/files/chain_{id:016x}_{si}.fifo", ctx.work);
                         std::fs::create_dir_all(format!("{}/files", ctx.work)).ok();
                         let data = in_flight.clone().unwrap_or_default();
-                        match cli::sfs_fifo(ctx, &a, &data, data.len(), &fifo) {
+                        // the artefact arrives in two bursts (the second once the reader has taken the first): a reader must go on to
+                        // the end of the stream, not to the first short read
+                        match cli::sfs_fifo(ctx, &a, &data, data.len() / 2, &fifo) {
                             Some(r) => r,
                             None => { out.tag("fifo-unavailable"); cli::sfs(ctx, &a, in_flight.as_deref()) }
                         }
+                    } else if in_flight.is_some() && (id as usize + si) % 3 == 0 {
+                        let data = in_flight.clone().unwrap_or_default();
+                        cli::sfs_delayed(ctx, &a, &data, data.len() / 3)
                     } else {
                         cli::sfs(ctx, &a, in_flight.as_deref())
                     };
